@@ -178,24 +178,24 @@ impl Archetypes {
             // Remove all references to the removed archetype.
 
             for (comp_idx, arch_idx) in mem::take(&mut arch.insert_components) {
-                let other_arch = unsafe {
-                    self.archetypes
-                        .get_mut(arch_idx.0 as usize)
-                        .unwrap_unchecked()
-                };
-
-                other_arch.remove_components.remove(&comp_idx);
+                // The neighbor also has the removed component and may be gone already.
+                if let Some(other_arch) = self.archetypes.get_mut(arch_idx.0 as usize) {
+                    other_arch.remove_components.remove(&comp_idx);
+                }
             }
 
             for (comp_idx, arch_idx) in mem::take(&mut arch.remove_components) {
-                let other_arch = unsafe {
-                    self.archetypes
-                        .get_mut(arch_idx.0 as usize)
-                        .unwrap_unchecked()
-                };
-
-                other_arch.insert_components.remove(&comp_idx);
+                if let Some(other_arch) = self.archetypes.get_mut(arch_idx.0 as usize) {
+                    other_arch.insert_components.remove(&comp_idx);
+                }
             }
+        }
+
+        // Edges are not always cached in both directions, so drop every remaining edge
+        // that leads into a removed archetype. Those are exactly the ones labeled with
+        // the removed component.
+        for (_, arch) in &mut self.archetypes {
+            arch.insert_components.remove(&removed_component_id.index());
         }
     }
 
